@@ -3,6 +3,7 @@ package main
 import (
 	"fmt"
 	"net/netip"
+	"strings"
 
 	"github.com/uhppoted/uhppote-core/types"
 )
@@ -117,6 +118,52 @@ func runC15(o Opts) error {
 		}
 		for _, v6 := range []string{"::1", "[::1]:60000", "fe80::1%eth0", "[1.2.3.4]:80", "::ffff:1.2.3.4", "[::ffff:1.2.3.4]:80", "a:1.2.3.4:5"} {
 			c15parse(s, role, v6, "ipv6-looking")
+		}
+		// well-formed IPv6 texts (which netip itself would accept): groups of decimal digits or hex, '::' anywhere,
+		// with and without brackets and port; none of them is an IPv4[:port]
+		nv6 := 150
+		if thorough {
+			nv6 = 5000
+		}
+		for i := 0; i < nv6; i++ {
+			ng := 8
+			gap := -1
+			if r.Intn(4) != 0 {
+				ng = 1 + r.Intn(7)
+				gap = r.Intn(ng + 1)
+			}
+			groups := make([]string, ng)
+			for g := range groups {
+				switch r.Intn(3) {
+				case 0:
+					groups[g] = fmt.Sprintf("%d", r.Intn(256))
+				case 1:
+					groups[g] = fmt.Sprintf("%d", []int{0, 1, 2, 3, 4, 10, 100, 255, 999, 1234, 5678, 9999}[r.Intn(12)])
+				default:
+					groups[g] = fmt.Sprintf("%x", r.Intn(65536))
+				}
+			}
+			txt := strings.Join(groups, ":")
+			if gap >= 0 {
+				txt = strings.Join(groups[:gap], ":") + "::" + strings.Join(groups[gap:], ":")
+			}
+			if _, err := netip.ParseAddr(txt); err != nil {
+				continue
+			}
+			switch r.Intn(3) {
+			case 0:
+				c15parse(s, role, txt, "ipv6-well-formed")
+			case 1:
+				c15parse(s, role, fmt.Sprintf("[%s]:%d", txt, []int{0, 1, 60000, 60001, 65535}[r.Intn(5)]), "ipv6-well-formed")
+			case 2:
+				c15parse(s, role, txt+fmt.Sprintf(":%d", []int{0, 60000, 60001}[r.Intn(3)]), "ipv6-well-formed")
+			}
+		}
+		// every string literal of the library's own source, as an address text
+		for _, lit := range sourceDict().Strings {
+			if len(lit) <= 24 {
+				c15parse(s, role, lit, "source-dictionary")
+			}
 		}
 		// mutations of valid addresses
 		n := 300
